@@ -14,6 +14,7 @@ def run(ctx):
     q = ctx.quick()
     design = [{"steps": 5 if q else 6, "universe": "Small", "crash": False, "invariants": ["C12_ArmedIffTimed", "C12_TimerMatchesStep"], "witnesses": 40 if q else 400}]
     plans = [{"cover": True, "universe": "Small", "steps": 5 if q else 6},
+             {"cover": True, "universe": "Two", "steps": 5 if q else 6, "visit": ["PrevoteDelay", "PrecommitDelay"], "workers": 8, "cap": 8000 if q else 60000},
              {"universe": "", "rich": True, "sim": 6 if q else 60, "steps": 9 if q else 12, "cap": 250 if q else 5000, "seeds": 1 if q else 3},
              {"universe": "Small", "rich": False, "sim": 10 if q else 60, "steps": 10 if q else 12, "cap": 150 if q else 3000, "seeds": 1 if q else 2}]
     cov, mismatches, inconcl = smcheck.collect(ctx, {"C12"}, plans, design)
